@@ -49,6 +49,15 @@
  *   xin <k> <tok>* | <op>          exact: <op> (pop arem aset push tset trem clear trunc assign concat) with an exact collection INSIDE its k-th ProbeE
  *                                  destructor / Assign call: the container is in an intermediate state (see the section before do_mid)
  *   cin <k> | <op>                 full: the same, the k-th call allocating until the threshold triggers the real GC_Mark / GC_Sweep
+ *   element type D                 `new 3 A D -`, `new 4 T ID -`: containers of ProbeDeep, an embedded record of three pointer fields whose Assign instance
+ *                                  ALLOCATES: for each field in turn it makes a fresh registered object (pointing to what the operand's field points to) and
+ *                                  stores it in the target.  The element `o<b>` stands for the fresh objects b, b+1, b+2.  Ops (plain, or behind
+ *                                  `xin <k> <tok>* |` / `cin <k> |`, k counting ALLOCATION POINTS: four per assigned element — in front of each allocation,
+ *                                  and behind the last store):
+ *                                    dpush <c> <b> <tok> | dins <c> <idx> <b> <tok> | daset <c> <idx> <b> <tok> | dtset <c> <key> <b> <tok>
+ *                                    dconcat <c> <src> <b> | dassign <c> <src> <b>      (copies of the elements of src: o<b>, o<b+3>, ...)
+ *                                  pop / trem / clear / trunc / del work on such containers as on any other; push / aset / tset / ins / arem / assign /
+ *                                  concat / copy are refused (bad-op)
  *   collect                        full: GC_Mark + GC_Sweep
  *   churn <n>                      full: allocate n unreferenced objects (drives the threshold)
  *   deepchild <n> <kind>           forked child: chain of n, forced collection; records the outcome (F27 witness)
@@ -78,7 +87,7 @@
 #define MASK 0x5a5a5a5a5a5a5a5aULL
 
 enum { K_NONE = 0, K_P, K_M, K_R, K_B, K_A, K_L, K_T, K_E, K_H, K_W, K_Y, K_Q };   /* letters U / F: T / E with Ref keys; W: a Thread object */
-enum { E_R = 0, E_I, E_S, E_F, E_X };                                  /* element / key / value types: Ref, Int, String, Float, ProbeE (element / value only) */
+enum { E_R = 0, E_I, E_S, E_F, E_X, E_D };                                  /* element / key / value types: Ref, Int, String, Float, ProbeE (element / value only) */
 enum { T_NIL = 0, T_OBJ, T_MIS, T_INT, T_LO, T_HI, T_SMALL };
 typedef struct { int t; long v; } Tok;
 
@@ -167,6 +176,44 @@ static void ProbeE_Del(var self) { probeE_call(); }
 static void ProbeE_Assign(var self, var obj) { ((struct ProbeE*)self)->ref = ((struct ProbeE*)cast(obj, ProbeE))->ref; probeE_call(); }
 var ProbeE = Cello(ProbeE, Instance(New, NULL, ProbeE_Del), Instance(Assign, ProbeE_Assign));
 
+/* ---------------------------------------------------------------- ProbeDeep: an embedded element type whose Assign instance ALLOCATES (a deep copy)
+   A record of three managed fields.  ProbeDeep_Assign makes, for each field in turn, a fresh registered probe that points to what the operand's
+   field points to, and stores it in the target: at allocation point j the fields 0..j-1 of the copy are already in the target element and are
+   reachable through nothing but that element.  Every allocation point (and the point behind the last store) is a hook call: the harness can run a
+   collection exactly there (the real thing is a threshold collection inside alloc). */
+struct ProbeDeep { var f0; var f1; var f2; };
+static long deep_next = -1;          /* id the next fresh object gets */
+static long deep_src = -1;           /* dconcat / dassign: the source container (its elements supply the tokens), else -1 */
+static int deep_idx = 0;             /* elements the running operation has assigned so far */
+static Tok deep_tok;                 /* dpush / dins / daset / dtset: what the operand's three fields hold */
+static void deep_made(var x, var word, int j);
+static var* deep_field(struct ProbeDeep* d, int j) { return j == 0 ? &d->f0 : j == 1 ? &d->f1 : &d->f2; }
+/* the allocation points have counters of their own: a threshold collection that one of the allocations triggers may sweep a container of ProbeE
+   elements, whose destructors are no calls of this operation */
+static long deep_hook = -1;          /* >= 0: armed; that many allocation points from now, hook_fn runs */
+static long deep_calls = 0;
+static void deep_point(void) {
+  if (exiting || hook_busy) return;
+  deep_calls++;
+  if (deep_hook < 0) return;
+  if (deep_hook == 0) { deep_hook = -1; hook_fired = 1; hook_busy = 1; hook_fn(); hook_busy = 0; } else deep_hook--;
+}
+var ProbeDeep;
+static void pin(void);
+static void ProbeDeep_Assign(var self, var obj) {
+  struct ProbeDeep* d = self; struct ProbeDeep* s = cast(obj, ProbeDeep);
+  for (int j = 0; j < 3; j++) {
+    deep_point();                      /* allocation point j: alloc -> GC_Set may collect here */
+    var x = alloc(Probe1);
+    pin();
+    deep_made(x, *deep_field(s, j), j);
+    *deep_field(d, j) = x;
+  }
+  deep_point();                        /* behind the last store */
+  deep_idx++;
+}
+var ProbeDeep = Cello(ProbeDeep, Instance(Assign, ProbeDeep_Assign));
+
 /* the New instance of the run-time types (static storage: a Type object stores pointers to its instance objects) */
 static struct { struct Header h; struct New n; } rt_new_inst;
 static long n_types = 0;
@@ -232,15 +279,18 @@ static int is_arr(int kind) { return kind == K_A || kind == K_L; }
 static int is_map(int kind) { return kind == K_T || kind == K_E; }
 static int refkeys(Sh* o) { return is_map(o->kind) && o->kt == E_R; }
 /* does element slot i of o hold a reference?  (an Int that equals an address, a String, a Float do not) */
-static int refvals(Sh* o) { return (is_arr(o->kind) || is_map(o->kind)) ? (o->vt == E_R || o->vt == E_X) : 1; }
-static var ety_type(int e) { return e == E_I ? Int : e == E_S ? String : e == E_F ? Float : e == E_X ? ProbeE : Ref; }
-static int parse_ety(char c) { return c == 'R' ? E_R : c == 'I' ? E_I : c == 'S' ? E_S : c == 'F' ? E_F : c == 'X' ? E_X : -1; }
+static int refvals(Sh* o) { return (is_arr(o->kind) || is_map(o->kind)) ? (o->vt == E_R || o->vt == E_X || o->vt == E_D) : 1; }
+/* a container of ProbeDeep elements: the element token o<b> stands for the three objects b, b+1, b+2 */
+static int is_deep(Sh* o) { return (is_arr(o->kind) || is_map(o->kind)) && o->vt == E_D; }
+static var ety_type(int e) { return e == E_I ? Int : e == E_S ? String : e == E_F ? Float : e == E_X ? ProbeE : e == E_D ? ProbeDeep : Ref; }
+static int parse_ety(char c) { return c == 'R' ? E_R : c == 'I' ? E_I : c == 'S' ? E_S : c == 'F' ? E_F : c == 'X' ? E_X : c == 'D' ? E_D : -1; }
 static const char* tok_text(Tok t) { static char b[32]; if (t.t == T_OBJ) snprintf(b, sizeof b, "o%ld", t.v); else snprintf(b, sizeof b, "n"); return b; }
 static const char* key_text(long k) { static char b[32]; snprintf(b, sizeof b, "k%ld", k); return b; }
 static var tok_word(Tok t);
 /* a value of element type `ety` made from a token / a key of key type `kt` (compound literals: valid in the enclosing block) */
 #define ELEM(ety, t) ((ety) == E_I ? (var)$I((int64_t)(uintptr_t)tok_word(t)) : (ety) == E_S ? (var)$S((char*)tok_text(t)) \
-                      : (ety) == E_F ? (var)$F((double)(t).v) : (ety) == E_X ? (var)$(ProbeE, tok_word(t)) : (var)$R(tok_word(t)))
+                      : (ety) == E_F ? (var)$F((double)(t).v) : (ety) == E_X ? (var)$(ProbeE, tok_word(t)) \
+                      : (ety) == E_D ? (var)$(ProbeDeep, tok_word(t), tok_word(t), tok_word(t)) : (var)$R(tok_word(t)))
 #define KEY(o, k) ((o)->kt == E_I ? (var)$I(k) : (o)->kt == E_S ? (var)$S((char*)key_text(k)) : (var)$R(P(k)))
 
 /* ---------------------------------------------------------------- shadow BFS (the direct oracle's reference) */
@@ -259,8 +309,10 @@ static size_t shadow_reach(Tok* words, int nwords, int use_slots) {
   while (qh < qt) {
     Sh* o = &sh[bfs_q[qh++]];
     int rv = refvals(o), rk = refkeys(o);   /* the CURRENT types decide what is a reference */
+    int dp = is_deep(o);
     for (int i = 0; i < o->n; i++) {
       if (rv) bfs_tok(o->el[i], &qt);
+      if (dp && o->el[i].t == T_OBJ) { bfs_push((int)o->el[i].v + 1, &qt); bfs_push((int)o->el[i].v + 2, &qt); }
       if (rk) bfs_push((int)o->key[i], &qt);
     }
   }
@@ -334,6 +386,8 @@ static int elem_is(var e, int ety, Tok t) {
     case E_S: return !strcmp(c_str(e), tok_text(t));
     case E_F: return c_float(e) == (double)t.v;
     case E_X: return ((struct ProbeE*)e)->ref == tok_word(t);
+    case E_D: { struct ProbeDeep* d = e; if (t.t != T_OBJ) return 0;
+                return d->f0 == P((int)t.v) && d->f1 == P((int)t.v + 1) && d->f2 == P((int)t.v + 2); }
     default: return deref(e) == tok_word(t);
   }
 }
@@ -405,7 +459,7 @@ static int kind_of(const char* s, int* rootflag, int* kt, int* vt) {
 static int parse_types(int kind, const char* arg, int* kt, int* vt) {
   if (!strcmp(arg, "-")) return 1;
   if (is_arr(kind) && strlen(arg) == 1) { int v = parse_ety(arg[0]); if (v < 0) return 0; *vt = v; return 1; }
-  if (is_map(kind) && strlen(arg) == 2) { int k = parse_ety(arg[0]), v = parse_ety(arg[1]); if (k < 0 || v < 0 || k == E_F || k == E_X) return 0; *kt = k; *vt = v; return 1; }
+  if (is_map(kind) && strlen(arg) == 2) { int k = parse_ety(arg[0]), v = parse_ety(arg[1]); if (k < 0 || v < 0 || k == E_F || k == E_X || k == E_D) return 0; *kt = k; *vt = v; return 1; }
   return 0;
 }
 static int parse_where(const char* s, int* slot) {
@@ -420,6 +474,17 @@ static void shadow_new(long id, int kind, int k, int rootflag, int kt, int vt) {
   if (id > maxid) maxid = (int)id;
   if (is_words(kind)) { o->k = k; o->n = k; o->cap = k; o->el = calloc(k ? k : 1, sizeof(Tok)); o->key = NULL; }
   n_objs++;
+}
+
+/* ProbeDeep_Assign has made the fresh object for field j of the element it is assigning: it enters the shadow graph under the next id */
+static void deep_made(var x, var word, int j) {
+  long id = deep_next++;
+  Tok t = deep_tok;
+  if (deep_src >= 0) { Tok e = sh[deep_src].el[deep_idx]; t.t = e.t == T_OBJ ? T_OBJ : T_NIL; t.v = e.t == T_OBJ ? e.v + j : 0; }
+  struct ProbeHead* h = x; h->id = id; h->canary = canary_of(id); h->slot[0] = word;
+  setP((int)id, x);
+  shadow_new(id, K_P, 1, 0, E_R, E_R);
+  sh[id].el[0] = t;
 }
 
 /* A garbage Tuple (or user Mark instance) hands its stored pointers to the callback if a stale stack word still finds
@@ -524,6 +589,7 @@ static int has_incoming_x(int id, int except_slot) {
     Sh* o = &sh[i]; if (!o->used || !o->alive || i == id) continue;
     for (int j = 0; j < o->n; j++) {
       if (o->el[j].t == T_OBJ && o->el[j].v == id) return 1;
+      if (is_deep(o) && o->el[j].t == T_OBJ && o->el[j].v <= id && id <= o->el[j].v + 2) return 1;
       if (refkeys(o) && o->key[j] == id) return 1;
     }
   }
@@ -942,6 +1008,173 @@ static __attribute__((noinline)) void do_mid(Inner* q, long k, Tok* words, int n
   }
 }
 
+/* ---------------------------------------------------------------- containers of ProbeDeep elements: a collection at an ALLOCATION POINT of an element's Assign
+   dpush / dins / daset / dtset / dconcat / dassign (see the head of this file).  With `xin k` / `cin k` the k-th allocation point of the operation runs
+   the collection: exact = TLS phase, root phase, GC_Mark_Item on the words, the container and the operand, then the real GC_Sweep; full = allocate
+   until the threshold triggers the real GC_Mark / GC_Sweep.  The oracle's reference: the shadow graph AFTER the operation, as far as its objects exist.
+   Territory of known findings runs in a forked child: KF-C01-array-uninit-slots (an Array filled from >= 2 elements: any element but the last) and
+   KF-C01-unlinked-entry-assign (List_Push / List_Push_At / Table_Set_Move / Tree_Set on a new key assign the entry while it lies outside the
+   structure: a stored field is presented by no Mark instance, the collection finalises the fresh object). */
+enum { D_NONE = 0, D_PUSH, D_INS, D_ASET, D_TSET, D_CONCAT, D_ASSIGN };
+typedef struct { int op; long id, a, base, src; Tok t; } DInner;
+
+static int fresh_ok(long base, long n) {
+  if (base < 0 || base + n > MAXOBJ) return 0;
+  for (long i = 0; i < n; i++) if (sh[base + i].used) return 0;
+  return 1;
+}
+static int deep_parse(char** w, int nw, DInner* q) {
+  memset(q, 0, sizeof *q); q->src = -1; q->t.t = T_NIL;
+  if (nw < 2 || stale_now) return 0;
+  long id;
+  if (!parse_long(w[1], &id) || !usable(id)) return 0;
+  Sh* o = &sh[id]; q->id = id;
+  if (!is_deep(o) || o->raw || owned(id)) return 0;
+  int one = 0;
+  if (!strcmp(w[0], "dpush")) { if (nw != 4 || !is_arr(o->kind)) return 0; q->op = D_PUSH; one = 2; }
+  else if (!strcmp(w[0], "dins")) {
+    if (nw != 5 || !is_arr(o->kind) || !parse_long(w[2], &q->a) || q->a < 0 || q->a > o->n || (o->kind == K_L && q->a == o->n && q->a != 0)) return 0;
+    q->op = D_INS; one = 3;
+  }
+  else if (!strcmp(w[0], "daset")) { if (nw != 5 || !is_arr(o->kind) || !parse_long(w[2], &q->a) || q->a < 0 || q->a >= o->n) return 0; q->op = D_ASET; one = 3; }
+  else if (!strcmp(w[0], "dtset")) { if (nw != 5 || !is_map(o->kind) || o->kt != E_I || !parse_long(w[2], &q->a)) return 0; q->op = D_TSET; one = 3; }
+  else if (!strcmp(w[0], "dconcat") || !strcmp(w[0], "dassign")) {
+    if (nw != 4 || !parse_long(w[2], &q->src) || !usable(q->src) || q->src == id) return 0;
+    Sh* os = &sh[q->src];
+    if (os->raw || owned(q->src) || !is_deep(os) || !is_arr(o->kind) || !is_arr(os->kind)) return 0;
+    if (!parse_long(w[3], &q->base) || !fresh_ok(q->base, 3L * os->n)) return 0;
+    q->op = !strcmp(w[0], "dconcat") ? D_CONCAT : D_ASSIGN;
+    return 1;
+  }
+  else return 0;
+  if (!parse_long(w[one], &q->base) || !fresh_ok(q->base, 3)) return 0;
+  if (!parse_tok(w[one + 1], &q->t) || !tok_ok(q->t) || !(q->t.t == T_OBJ || q->t.t == T_NIL)) return 0;
+  return 1;
+}
+static int deep_count(DInner* q) { return (q->op == D_CONCAT || q->op == D_ASSIGN) ? sh[q->src].n : 1; }
+/* 1: modelled; 0: KF-C01-array-uninit-slots; 2: KF-C01-unlinked-entry-assign */
+static int deep_safe(DInner* q, long k) {
+  Sh* o = &sh[q->id]; int ne = deep_count(q);
+  if (k >= 4L * ne) return 1;
+  long i = k / 4, kk = k % 4;
+  switch (o->kind) {
+    case K_A: return ((q->op == D_CONCAT || q->op == D_ASSIGN) && i + 1 != ne) ? 0 : 1;
+    case K_L: return (q->op == D_ASET || kk == 0) ? 1 : 2;
+    case K_T: return kk == 0 ? 1 : 2;
+    default:  return (map_find(o, q->a) >= 0 || kk == 0) ? 1 : 2;
+  }
+}
+/* full mode: a threshold collection may run at ANY allocation of the operation, so only operations that are modelled at every point are accepted */
+static int deep_all_safe(DInner* q) { for (long k = 0; k < 4L * deep_count(q); k++) if (deep_safe(q, k) != 1) return 0; return 1; }
+static void deep_shadow(DInner* q) {
+  Sh* o = &sh[q->id]; Tok e = { T_OBJ, q->base };
+  switch (q->op) {
+    case D_PUSH: sh_grow(o); o->el[o->n++] = e; break;
+    case D_INS: sh_grow(o); memmove(o->el + q->a + 1, o->el + q->a, (o->n - q->a) * sizeof(Tok)); o->el[q->a] = e; o->n++; break;
+    case D_ASET: o->el[q->a] = e; break;
+    case D_TSET: { int i = map_find(o, q->a); if (i < 0) { sh_grow(o); i = o->n++; o->key[i] = q->a; } o->el[i] = e; break; }
+    case D_ASSIGN: o->n = 0;   /* fall through */
+    case D_CONCAT: { int m = sh[q->src].n; for (int i = 0; i < m; i++) { sh_grow(o); o = &sh[q->id]; Tok x = { T_OBJ, q->base + 3L * i }; o->el[o->n++] = x; } break; }
+  }
+}
+static __attribute__((noinline)) void deep_real(DInner* q) {
+  Sh* o = &sh[q->id]; var p = P((int)q->id);
+  deep_next = q->base; deep_idx = 0; deep_src = q->src; deep_tok = q->t;
+  switch (q->op) {
+    case D_PUSH: push(p, ELEM(E_D, q->t)); break;
+    case D_INS: push_at(p, ELEM(E_D, q->t), $I(q->a)); break;
+    case D_ASET: set(p, $I(q->a), ELEM(E_D, q->t)); break;
+    case D_TSET: set(p, KEY(o, q->a), ELEM(E_D, q->t)); break;
+    case D_CONCAT: concat(p, P((int)q->src)); break;
+    case D_ASSIGN: assign(p, P((int)q->src)); break;
+  }
+  deep_src = -1;
+}
+/* the collection at an allocation point: the reference is the shadow graph after the operation, as far as its objects exist NOW */
+static void deep_collect_exact(void) { shadow_reach(mid_words, mid_nw, 0); mark_phases(mid_words, mid_nw); finish_collect("x"); }
+static const char* deep_site(DInner* q) {
+  Sh* o = &sh[q->id];
+  if (o->kind == K_A) return q->op == D_CONCAT ? "Array_Concat" : "Array_Assign";
+  if (o->kind == K_L) return q->op == D_INS ? "List_Push_At" : "List_Push";
+  return o->kind == K_T ? "Table_Set_Move" : "Tree_Set";
+}
+/* the operation with a collection at allocation point k, in a forked child: 0 = completed and lost nothing, 5 = a fresh object that the
+   container holds was finalised, otherwise how it ended */
+static int deepop_child(DInner* q, long k, int full) {
+  fflush(stdout);
+  pid_t pid = fork();
+  if (pid == 0) {
+    alarm(30);
+    int devnull = open("/dev/null", 1); if (devnull >= 0) { dup2(devnull, 2); dup2(devnull, 1); }
+    var exc;
+    int ne = deep_count(q);
+    hook_fn = full ? mid_collect_full : deep_collect_exact; hook_fired = 0; deep_calls = 0; hook_count = -1; deep_hook = k; mid_collected = 0;
+    V_TRY(exc, deep_real(q));
+    deep_hook = -1;
+    int lost = 0;
+    for (long i = 0; i < 3L * ne; i++) if (fin[q->base + i]) lost = 1;
+    exiting = 1;
+    _exit(exc ? 4 : lost ? 5 : 0);
+  }
+  int st = 0; waitpid(pid, &st, 0);
+  if (WIFEXITED(st) && WEXITSTATUS(st) == 0) return 0;
+  return WIFSIGNALED(st) ? 1000 + WTERMSIG(st) : WEXITSTATUS(st);
+}
+/* mode 0: plain; 1: xin (exact); 2: cin (full) */
+static __attribute__((noinline)) void do_deep(DInner* q, long k, Tok* words, int nw, int mode) {
+  int ne = deep_count(q);
+  int safe = mode ? deep_safe(q, k) : 1;
+  mid_nw = 0;
+  for (int i = 0; i < nw; i++) mid_words[mid_nw++] = words[i];
+  Tok self = { T_OBJ, q->id }; mid_words[mid_nw++] = self;
+  if (q->src >= 0) { Tok s_ = { T_OBJ, q->src }; mid_words[mid_nw++] = s_; } else mid_words[mid_nw++] = q->t;
+  if (safe != 1) {
+    deep_shadow(q);        /* the child's collection checks against the shadow after the operation */
+    int rc = deepop_child(q, k, mode == 2);
+    if (rc) X("sig=%s line=%zu what=a collection at allocation point %ld of the element Assign calls of %s %s (%s %d)",
+              safe == 0 ? "gc-mid-op-uninit-slots" : "gc-mid-op-unlinked-entry", curline, k, deep_site(q),
+              safe == 0 ? "reads element slots that nitems already counts but that are not constructed yet"
+                        : "finds the entry under construction outside the structure: a field that is already stored is presented by no Mark instance and the fresh object is finalised",
+              rc >= 1000 ? "signal" : "exit status", rc >= 1000 ? rc - 1000 : rc);
+    I("deep-kf line=%zu site=%s point=%ld outcome=%d", curline, deep_site(q), k, rc);
+    hook_count = -1; deep_hook = -1; deep_calls = 0;
+    deep_real(q);
+    pin();
+    if (!content_ok((int)q->id)) X("sig=gc-retype-content line=%zu what=container %ld differs from its shadow after the operation", curline, q->id);
+    if (mode == 2) { checkpoint_dead(); O("cin ub live=%s", set_text(reach, 1)); } else O("xin ub");
+    return;
+  }
+  deep_shadow(q);
+  mid_busy = (int)q->id; mid_collected = 0;
+  hook_fn = mode == 2 ? mid_collect_full : deep_collect_exact;
+  hook_fired = 0; deep_calls = 0; hook_count = -1; deep_hook = mode ? k : -1;
+  if (mode_full) scrub_stack();
+  deep_real(q);
+  deep_hook = -1; mid_busy = -1;
+  pin();
+  if ((int)deep_calls != 4 * ne) X("sig=gc-mid-op-calls line=%zu what=the operation passed %ld allocation points of ProbeDeep_Assign, %d expected", curline, deep_calls, 4 * ne);
+  if (deep_next != q->base + 3L * ne) X("sig=gc-mid-op-calls line=%zu what=the operation made %ld fresh objects, %d expected", curline, deep_next - q->base, 3 * ne);
+  if (!content_ok((int)q->id)) X("sig=gc-retype-content line=%zu what=container %ld differs from its shadow after the operation", curline, q->id);
+  if (mode_full) {
+    /* threshold collections may have run at any allocation of the operation: everything reachable now must have survived them */
+    shadow_reach(NULL, 0, 1);
+    oracle_survivors(mode == 2 ? "collection at an allocation point of a container operation" : "container operation that allocates");
+    checkpoint_dead();
+    if (mode == 2) { O("cin calls=%ld fired=%d live=%s", deep_calls, hook_fired, set_text(reach, 1)); I("cin line=%zu collected=%d", curline, mid_collected); }
+    else O("ok live=%s", set_text(reach, 1));
+  } else if (mode == 1) O("xin calls=%ld fired=%d", deep_calls, hook_fired);
+  else O("ok");
+}
+/* an op of the base interpreter that would touch a container of ProbeDeep elements in a way only the deep ops handle */
+static int deep_id(const char* s) { long id; return parse_long(s, &id) && usable(id) && is_deep(&sh[id]); }
+static int touches_deep(char** w, int nw) {
+  if (nw < 2) return 0;
+  if (!strcmp(w[0], "push") || !strcmp(w[0], "aset") || !strcmp(w[0], "tset") || !strcmp(w[0], "arem") || !strcmp(w[0], "ins")) return deep_id(w[1]);
+  if (!strcmp(w[0], "assign") || !strcmp(w[0], "concat")) return nw >= 3 && (deep_id(w[1]) || deep_id(w[2]));
+  if (!strcmp(w[0], "copy")) return nw >= 3 && deep_id(w[2]);
+  return 0;
+}
+
 /* chain of n objects id..id+n-1 (all of one kind), each pointing to the next */
 static int chain_kind(const char* s, int* kt, int* vt) { return (strlen(s) == 1 && strchr("RPAHULE", s[0])) ? kind_letter(s[0], kt, vt) : K_NONE; }
 static void link_to(int a, int b) {   /* a -> b through a's representation */
@@ -1115,6 +1348,33 @@ int main(int argc, char** argv) {
     int too_many = 0;
     for (char* t = strtok(buf, " "); t; t = strtok(NULL, " ")) { if (nw == 40) { too_many = 1; break; } w[nw++] = t; }
     if (nw == 0 || too_many) BAD;
+    {
+      /* containers of ProbeDeep elements: their own ops, plain or behind `xin k tok* |` / `cin k |` */
+      int isx = !strcmp(w[0], "xin"), isc = !strcmp(w[0], "cin");
+      int bar = -1;
+      if (isx || isc) for (int i = 2; i < nw; i++) if (!strcmp(w[i], "|")) { bar = i; break; }
+      DInner dq;
+      if ((isx || isc) && bar >= 0 && bar + 1 < nw) {
+        if (deep_parse(w + bar + 1, nw - bar - 1, &dq)) {
+          long k;
+          if (isc != mode_full || stale_now || !parse_long(w[1], &k) || k < 0 || k > 100000 || (isc && bar != 2)) BAD;
+          if (mode_full && !deep_all_safe(&dq)) BAD;
+          Tok ws[40]; int ok = 1;
+          for (int i = 2; i < bar; i++) if (!parse_tok(w[i], &ws[i - 2]) || !tok_ok(ws[i - 2])) ok = 0;
+          if (!ok || (isx && !types_anchored(NULL, 0, 1))) BAD;
+          started = 1;
+          if (isc) scrub_stack();
+          do_deep(&dq, k, ws, bar - 2, isx ? 1 : 2);
+          goto next;
+        }
+        if (touches_deep(w + bar + 1, nw - bar - 1) || (nw - bar - 1 >= 2 && deep_id(w[bar + 2]))) BAD;
+      } else if (deep_parse(w, nw, &dq)) {
+        if (mode_full && !deep_all_safe(&dq)) BAD;
+        started = 1;
+        do_deep(&dq, 0, NULL, 0, 0);
+        goto next;
+      } else if (touches_deep(w, nw)) BAD;
+    }
     if (!strcmp(w[0], "mode")) {
       if (started || nw != 2) BAD;
       if (!strcmp(w[1], "full")) mode_full = 1; else if (!strcmp(w[1], "exact")) mode_full = 0; else BAD;
